@@ -170,6 +170,40 @@ func ruleR079(c *Ctx) {
 				expanded = append(expanded, st)
 				continue
 			}
+			// (c) the cache is never filled from inside a producer: a producer's iteration ends when ITS consumer stops
+			// (first, top, present), which says nothing about the end of the list
+			for _, f := range vp.Syntax {
+				for _, d := range f.Decls {
+					ofd, ok := d.(*ast.FuncDecl)
+					if !ok || ofd.Body == nil || ofd == h {
+						continue
+					}
+					ast.Inspect(ofd.Body, func(x ast.Node) bool {
+						call, ok := x.(*ast.CallExpr)
+						if !ok {
+							return true
+						}
+						if cal := Callee(info, call); cal == nil || cal.Origin() != hobj.Origin() {
+							return true
+						}
+						for q := c.EnclosingFunc(call); q != nil; q = c.EnclosingFunc(q) {
+							lit, ok := q.(*ast.FuncLit)
+							if !ok || lit.Type.Params == nil {
+								continue
+							}
+							for _, fl := range lit.Type.Params.List {
+								if sig, ok := info.TypeOf(fl.Type).Underlying().(*types.Signature); ok && sig.Params().Len() == 2 && sig.Results().Len() == 1 && isErrorType(sig.Params().At(1).Type()) {
+									if b, ok := sig.Results().At(0).Type().Underlying().(*types.Basic); ok && b.Kind() == types.Bool {
+										c.Violation(fmt.Sprintf("%s#cache-filled-inside-a-producer", declName(vp, ofd)), call.Pos(), "%s fills the materialisation cache of a list from inside a producer (a function that delivers to a consumer): the producer's own iteration ends as soon as its consumer stops (first, top, present, a failing reduce), so the prefix seen so far is cached as the whole list - a constant list that one evaluation consumed partially is truncated for all later evaluations", h.Name.Name)
+										return true
+									}
+								}
+							}
+						}
+						return true
+					})
+				}
+			}
 			nCallers := 0
 			for _, f := range vp.Syntax {
 				for _, d := range f.Decls {
